@@ -46,8 +46,17 @@ def check(ctx):
         if u["kind"] == "refmut":
             cons = consumer_of(f, u["dest"][0])
             if len(cons) == 1 and callee_is(cons[0][1], "std::ops::DerefMut::deref_mut", "deref_mut"):
-                data_write_sites.append((f, cons[0][0]))
-                ctx.ob("a.who-writes", key, True, "deref_mut of pi_i (data write; guarded by clause b)", f.loc(u["b"], u["i"]))
+                # the mutable slice may only become the destination of the (guarded, clause b) reply copy
+                from analysis.query import flows_to_calls
+                dcall = cons[0][1]
+                dl = mk_place(dcall["dest"])
+                sinks = flows_to_calls(f, dl[0]) if not dl[1] else []
+                only_copy = bool(sinks) and all(callee_is(c2, "core::slice::<impl [T]>::copy_from_slice", "copy_from_slice") and n2 == 0 for (_, c2, n2) in sinks)
+                if only_copy:
+                    data_write_sites.append((f, cons[0][0]))
+                ctx.ob("a.who-writes", key + "|" + "+".join(sorted({(c2.get("callee") or "?").split("::")[-1] for (_, c2, _) in sinks})), only_copy,
+                       "the input process image `pi_i` is written by something other than the guarded copy of a reply PDU (%s) in %s" % (
+                           sorted({(c2.get("callee") or "?") for (_, c2, _) in sinks}) or "direct store", f.name), f.loc(u["b"], u["i"]))
                 continue
             if len(cons) == 1 and callee_is(cons[0][1], "std::mem::replace", "std::mem::take"):
                 # re-seating the buffer is only allowed in a function that replaces the whole peripheral
